@@ -17,12 +17,14 @@ WideLims == {<<600, 800, 1300>>, <<1600, 650, 700>>}
 DsWide == {<<0, 0, 0>>, <<25, -50, 75>>, <<-75, 25, 50>>, <<100, -100, 0>>, <<-150, -125, -100>>, <<-25, 75, -100>>, <<-200, 150, -175>>, <<-100, -200, -50>>}
 Boxes == {<<12,12,12>>, <<13,13,13>>, <<12,13,14>>, <<13,16,12>>}
 Cases == UNION {[model : {"ZNCC", "NCC", "PCC", "FSC"}, lim : {lv}, d : DsFor(lv),
-                 box : Boxes, mask : {"none", "soft"}, cutoff : {0, 40}, tilt : {"none", "id", "rotq"}, bg : {0, 2}] : lv \in LimVecs}
+                 box : Boxes, mask : {"none", "soft"}, cutoff : {0, 40}, tilt : {"none", "id", "rotq"}, bg : {0, 2, 100}] : lv \in LimVecs}
          \cup [model : {"ZNCC", "NCC", "PCC"}, lim : WideLims, d : DsWide, box : Boxes, mask : {"none"}, cutoff : {0}, tilt : {"none"}, bg : {0}]
 Valid(c) == (c.model = "FSC" => c.lim \in {<<100,100,100>>, <<150,150,150>>, <<200,200,200>>, <<100,250,150>>})
             /\ \A a \in 1..3 : c.d[a] <= c.lim[a] /\ -c.d[a] <= c.lim[a]
             \* bg: the density sits on a constant background (same in template and sub-volume); plain cases only
             /\ (c.bg # 0 => (c.mask = "none" /\ c.cutoff = 0 /\ c.tilt = "none"))
+            \* a background fifty times the density (data that were never mean-subtracted): two boxes, interior and edge displacements
+            /\ (c.bg = 100 => (c.box \in {<<13,13,13>>, <<12,13,14>>} /\ c.lim \in {<<200,200,200>>, <<100,250,150>>}))
             \* with a soft mask the displaced particle must stay mostly inside the mask (radius >= 5 px): |d| <= 3.5 px
             /\ (c.mask = "soft" => c.d[1] * c.d[1] + c.d[2] * c.d[2] + c.d[3] * c.d[3] <= 350 * 350)
 Tol(c) == IF c.model = "FSC" \/ c.mask = "soft" THEN 50 ELSE 10
